@@ -267,8 +267,10 @@ impl<'a> Shrinker<'a> {
 }
 
 fn renumber(sc: &mut Scenario) {
+    let old: Vec<usize> = sc.conns.iter().map(|c| c.id).collect();
     for (k, c) in sc.conns.iter_mut().enumerate() {
         c.id = k;
+        c.twin = c.twin.and_then(|t| old.iter().position(|&o| o == t));
     }
 }
 
